@@ -19,6 +19,7 @@ import (
 	"syscall"
 	"time"
 
+	"github.com/martian-lang/martian/martian/core"
 	"github.com/martian-lang/martian/martian/util"
 )
 
@@ -262,5 +263,98 @@ func c05MrjobSignalWhileRecording(c *Ctx, env *TBEnv) {
 				What:  "the job monitor had recorded the job's completion (_complete) when SIG" + sig + " arrived, and marked the job failed afterwards (_errors: " + firstLine(string(b)) + "): the restarted mrp resets the job and executes it again",
 				Input: map[string]interface{}{"signal": sig, "scenario": "real mrjob, journal entry of _complete is a FIFO so that the signal arrives inside runner.Complete()"}})
 		}
+	}
+}
+
+// c05ClusterSubmitWindow (cluster mode, the real RemoteJobManager.sendJob): several jobs are queued while
+// the submit command is slow, so that all but one WAIT for the submit lock.  A job in that window has
+// been handed to nobody; its `_queued_locally` is the only durable record of that (it is what
+// restartQueuedLocal uses to resubmit it; the queue query only knows jobs with a `_jobid`, and
+// restartLocal is not applied to cluster jobs).  Oracle, free of timing: if job X has `_jobinfo`, no
+// `_queued_locally`, and its submit command has not started, while ANOTHER job's submit command is
+// (still, checked afterwards) running — i.e. holds the lock — then an mrp terminated at that instant
+// is restarted into a pipestance that waits for X for ever.
+func c05ClusterSubmitWindow(c *Ctx) {
+	r := c.Res
+	dir := filepath.Join(c.Scratch, "submitwindow")
+	os.MkdirAll(dir, 0o755)
+	const k = 4
+	submit := []string{"-c", "cat > /dev/null; touch ../_submit_started; sleep 0.25; echo job$$"}
+	jm := core.VerifNewClusterJobManager(0, "/bin/sh", submit)
+	fork, err := core.VerifLoadClusterFork(jm, "ID.c05.PIPE.STAGE", dir, k)
+	if err != nil {
+		r.note("cluster submit window: %v", err)
+		return
+	}
+	_, _, chunks := fork.Metadatas()
+	res := &core.JobResources{Threads: 1, MemGB: 1}
+	for i := 0; i < k; i++ {
+		// Node.runJob hands each job to the job manager from a goroutine of its own
+		go core.VerifQueueJob(jm, chunks[i], res, fmt.Sprintf("ID.c05.PIPE.STAGE.fork0.chnk%d", i))
+	}
+	has := func(i int, f string) bool {
+		_, err := os.Stat(filepath.Join(dir, fmt.Sprintf("chnk%d", i), f))
+		return err == nil
+	}
+	submitting := func(i int) bool { return has(i, "_submit_started") && !has(i, "_jobid") && !has(i, "_errors") }
+	bad := -1
+	observations := 0
+	deadline := time.Now().Add(20 * time.Second)
+	for time.Now().Before(deadline) && bad < 0 {
+		alldone := true
+		for i := 0; i < k; i++ {
+			if !has(i, "_jobid") && !has(i, "_errors") {
+				alldone = false
+			}
+		}
+		if alldone {
+			break
+		}
+		for x := 0; x < k && bad < 0; x++ {
+			if has(x, "_jobinfo") && !has(x, "_queued_locally") && !has(x, "_submit_started") {
+				// confirm AFTERWARDS that somebody else still holds the submit lock
+				for y := 0; y < k; y++ {
+					if y != x && submitting(y) {
+						bad = x
+					}
+				}
+			}
+			observations++
+		}
+		time.Sleep(time.Millisecond)
+	}
+	nerr, nid := 0, 0
+	for i := 0; i < k; i++ {
+		if has(i, "_errors") {
+			nerr++
+			if b, e := os.ReadFile(filepath.Join(dir, fmt.Sprintf("chnk%d", i), "_errors")); e == nil && nerr == 1 {
+				r.note("cluster submit window: submit command failed: %s", firstLine(string(b)))
+			}
+		}
+		if has(i, "_jobid") {
+			nid++
+		}
+	}
+	r.Histogram["cluster_submit_window_observations"] += observations
+	r.Histogram["cluster_submit_window_submitted"] += nid
+	r.hist("cluster_submit_window_runs")
+	r.count("cluster-submit-window", true)
+	if bad >= 0 {
+		r.violate(Violation{Kind: "property", Key: "C05:cluster-job-unrestartable-while-waiting-for-submit",
+			What: fmt.Sprintf("cluster mode: job chnk%d was waiting for the submit lock (another job's submit command was running) with _jobinfo but neither _queued_locally nor _jobid: an mrp terminated at that instant is restarted into a pipestance that takes the job to be queued on the cluster and waits for it for ever", bad),
+			Input: map[string]interface{}{"jobs": k, "submit_command": strings.Join(submit, " "), "scenario": "real RemoteJobManager.sendJob, slow submit command"}})
+	}
+	// let the remaining submissions finish before the scratch directory goes away
+	for w := 0; w < 400; w++ {
+		done := true
+		for i := 0; i < k; i++ {
+			if !has(i, "_jobid") && !has(i, "_errors") {
+				done = false
+			}
+		}
+		if done {
+			break
+		}
+		time.Sleep(10 * time.Millisecond)
 	}
 }
